@@ -344,6 +344,9 @@ func (f *TF) Bin(op Op, a, b *Term) *Term {
 		r, _ := evalBin(op, a.W, a.C, b.C)
 		return f.Const(a.W, r)
 	}
+	if (op == OUDiv || op == OURem) && a.Op == OZext && b.IsConst() && b.C != 0 && b.C <= mask(a.A.W) {
+		return f.Conv(f.Bin(op, a.A, f.Const(a.A.W, b.C)), a.W, false)
+	}
 	switch op {
 	case OAdd:
 		if a.IsConst() && a.C == 0 {
@@ -516,6 +519,13 @@ func (f *TF) Conv(a *Term, w uint8, signed bool) *Term {
 		}
 		if (a.Op == OZext || a.Op == OSext) && a.A.W < w {
 			return f.Conv(a.A, w, a.Op == OSext)
+		}
+		switch a.Op {
+		case OAdd, OSub, OMul, OBAnd, OBOr, OBXor:
+			// truncation distributes over ring and bitwise operations
+			return f.Bin(a.Op, f.Conv(a.A, w, false), f.Conv(a.B, w, false))
+		case ONeg:
+			return f.Neg(f.Conv(a.A, w, false))
 		}
 		return f.mk(OExtract, w, uint64(w-1)<<8, a, nil, nil)
 	}
